@@ -181,3 +181,34 @@ package cluster
 //@   assume forall(k, 0, len(u), u[k] != '/')
 //@   assume forall(k, 0, len(v), v[k] != '/')
 //@   assume len(u + "/" + c) == len(v + "/" + d) && forall(k, 0, len(u + "/" + c), (u + "/" + c)[k] == (v + "/" + d)[k])
+
+// ---- start-up rebalancing, per-function part (property C14) ----
+// A transfer of a shard file starts from an empty destination file: the receiver truncates on the
+// first chunk (otherwise a retried transfer appends to the remains of an interrupted one).
+//@ func (*ClusterNode).RPCSendShard
+//@   property C14
+//@   arith bv
+//@   before OpenFile requires old(args.ChunkIndex) == 0 ==> arg1 & os.O_TRUNC != 0
+//@   before OpenFile requires arg1 & os.O_APPEND != 0 && arg1 & os.O_CREATE != 0
+
+// The source copy is removed only after the destination acknowledged every chunk with the full
+// byte count and reported the checksum of the source file.
+//@ func (*ClusterNode).sendShardFile
+//@   property C14
+//@   safety -overflow
+//@   before RemoveAll requires checksum == rpcResp.Checksum && rpcResp.BytesWritten == n
+//@   ensures result == nil ==> ncalls(RemoveAll) == 1
+//@   ensures ncalls(RemoveAll) <= 1
+
+// Start-up synchronisation is skipped only by a node that is the sole member of the server list.
+//@ func (*ClusterNode).Sync
+//@   property C14
+//@   ensures ncalls(syncUserCollections) == 0 ==> len(old(c.Servers)) == 1 && old(c.Servers[0]) == old(c.MyHostname) && result == nil
+//@   ensures ncalls(syncUserCollections) == 1 && lastres(syncUserCollections) != nil ==> result != nil && ncalls(syncShards) == 0
+//@   ensures ncalls(syncShards) == 1 && lastres(syncShards) != nil ==> result != nil
+//@   ensures ncalls(syncUserCollections) <= 1 && ncalls(syncShards) <= 1
+
+// A record is deleted locally only after the destination stored all of them.
+//@ func (*ClusterNode).syncUserCollections$2
+//@   property C14
+//@   before Write requires lastres(RPCSetNodeKeyValue) == nil && rpcResp.Count == len(req.KeyValues)
